@@ -301,7 +301,7 @@ def dispatch(case):
 
 def build_cases(rng, tier):
     cases = []
-    n = 36 if tier == "quick" else 400
+    n = 36 if tier == "quick" else 240
     for i in range(n):
         r = rng.fork("rt%d" % i)
         prog = rulesets.gen_program(r, trailing=(i % 5 == 0), max_scs=1, csize=256)
@@ -331,13 +331,13 @@ def build_cases(rng, tier):
                       # (-CF reads yy_transition past its end on some bytes, in-code and loaded alike: that is C13's finding, not a loader defect)
                       'asan': i % 3 == 0 and not any('F' in o for o in REPRS[i % len(REPRS)]), 'tier': tier,
                       'text': '', 'backend': 'nr'})
-    for i in range(6 if tier == "quick" else 60):
+    for i in range(6 if tier == "quick" else 40):
         r = rng.fork("cat%d" % i)
         progs = [rulesets.gen_program(r.fork("p%d" % k), max_scs=0, csize=256) for k in range(2 + i % 2)]
         cases.append({'id': "k%d" % i, 'kind': 'cat', 'progs': progs, 'seed': r.s, 'flex_opts': list(REPRS[(i * 3) % len(REPRS)]) + ["-8"],
                       'input': rulesets.gen_inputs(progs[0], r.fork("in"), count=1, maxlen=60)[0], 'text': '', 'backend': 'nr',
                       'prog': progs[0], 'inputs': []})
-    for i in range(6 if tier == "quick" else 60):
+    for i in range(6 if tier == "quick" else 40):
         r = rng.fork("ver%d" % i)
         cases.append({'id': "v%d" % i, 'kind': 'ver', 'prog': rulesets.gen_program(r.fork("a"), max_scs=0, csize=256),
                       'other': rulesets.gen_program(r.fork("b"), max_scs=0, csize=256), 'seed': r.s,
